@@ -54,6 +54,8 @@ def gen_opts(rng, inst, ncrit=None, stab=None, pc=None, pool=None):
     order = list(range(n_groups))
     rng.shuffle(order)
     opts['flag_order'] = order
+    if rng.random() < 0.25:
+        opts['alias_seed'] = rng.randrange(1, 2 ** 31)
     return opts
 
 
@@ -360,6 +362,15 @@ GEN_FLAGS = [('mp', '-mp'), ('numinst', '-numinst'), ('n1', '-n1'),
              ('pmax', '-pmax'), ('uq', '-uq'), ('lq', '-lq'),
              ('luq', '-luq'), ('lt', '-lt'), ('llq', '-llq'), ('t1', '-t1'),
              ('t2', '-t2'), ('skew', '-skew')]
+GEN_ALIASES = {
+    '-mp': '--matchingproblem', '-numinst': '--numberinstances',
+    '-n1': '--numberofagents1', '-n2': '--numberofagents2',
+    '-n3': '--numberofagents3', '-pmin': '--minpreflistlength',
+    '-pmax': '--maxpreflistlength', '-uq': '--upperquotas',
+    '-lq': '--lowerquotas', '-luq': '--lecturerupperquotas',
+    '-lt': '--lecturertargets', '-llq': '--lecturerlowerquotas',
+    '-t1': '--ties1', '-t2': '--ties2', '-skew': '--linearskew',
+    '-twopl': '--preferencelists2'}
 REQUIRED = {'ha': ['n1', 'n2', 'pmin', 'pmax', 'uq'],
             'sm': ['n1', 'pmin', 'pmax', 'twopl'],
             'hr': ['n1', 'n2', 'pmin', 'pmax', 'uq', 'twopl'],
@@ -385,6 +396,11 @@ def gen_argv(params):
         order = [i for i in order if i < len(groups)]
         rest = [i for i in range(len(groups)) if i not in order]
         groups = [groups[i] for i in order + rest]
+    if params.get('alias_seed'):
+        r = random.Random(params['alias_seed'])
+        groups = [[GEN_ALIASES[g[0]]] + g[1:]
+                  if g[0] in GEN_ALIASES and r.random() < 0.5 else g
+                  for g in groups]
     out = []
     for g in groups:
         out += g
@@ -444,6 +460,8 @@ def gen_params(rng, mp=None, small=False, big_lists=False, twopl=None):
     order = list(range(18))
     rng.shuffle(order)
     p['flag_order'] = order if rng.random() < 0.6 else None
+    if rng.random() < 0.25:
+        p['alias_seed'] = rng.randrange(1, 2 ** 31)
     return p
 
 
